@@ -23,7 +23,8 @@ import numpy as np
 import common
 from common import Check, main_wrapper
 
-PROFILES = ["conv", "elementwise", "memory", "cascade", "mixed", "cpu", "approx", "cascade", "weights", "mixed"]
+PROFILES = ["conv", "elementwise", "memory", "cascade", "mixed", "cpu", "approx", "cascade", "weights", "mixed", "softmax", "inplace",
+            "shared"]
 
 
 # ------------------------------------------------------------------------------------------------
@@ -55,9 +56,234 @@ def pick_padding(rng, k, s):
     return rng.choice(["SAME", "VALID"])
 
 
+def add_softmax(b, rng, x, beta=None):
+    """SOFTMAX over the innermost dimension with the output quantisation the reference kernels demand"""
+    import netgen
+
+    xt = b.t(x)
+    if beta is None:
+        beta = rng.choice([0.1, 0.7, 1.0, 1.0, 1.3, 3.0, round(rng.uniform(0.05, 4.0), 3)])
+    o = b.fm(list(xt.shape), xt.dtype, scale=1.0 / 256 if xt.dtype != "int16" else 1.0 / 32768,
+             zp={"int8": -128, "uint8": 0, "int16": 0}[xt.dtype])
+    b.net.ops.append(netgen.Op("SOFTMAX", [x], [o], ("SoftmaxOptions", dict(Beta=float(beta)))))
+    b.net.desc.append(f"softmax(beta={beta})")
+    return o
+
+
+def reshape_like(b, rng, t):
+    """a RESHAPE-like operator behind `t` (rank 4): Vela bypasses memory-only operators, so the producer's lowering then sees the
+    reshaped tensor; returns the new tensor (rank 4 or 2)"""
+    import netgen
+
+    tt = b.t(t)
+    n, hh, ww, cc = tt.shape
+    style = rng.choice(["flat", "hw1c", "1hwc", "whc", "squeeze"])
+    b.net.desc.append("then_reshape:" + style)
+    if style == "flat":
+        return b.reshape(t, [1, hh * ww * cc])
+    if style == "hw1c":
+        return b.reshape(t, [1, hh * ww, 1, cc])
+    if style == "1hwc":
+        return b.reshape(t, [1, 1, hh * ww, cc])
+    if style == "whc" or not (hh == 1 or ww == 1):
+        return b.reshape(t, [1, ww, hh, cc])
+    ax = 1 if hh == 1 else 2
+    sq = b.fm([d for i, d in enumerate(tt.shape) if i != ax], tt.dtype, scale=tt.scales[0], zp=tt.zps[0])
+    b.net.ops.append(netgen.Op("SQUEEZE", [t], [sq], ("SqueezeOptions", dict(SqueezeDims=[ax]))))
+    return b.reshape(sq, [1, hh * ww * cc])
+
+
+def gen_softmax(rng, idx):
+    """SOFTMAX behind 0-2 ordinary operators; rank 2-4; beta not only 1.0 (the table of exponentials depends on it)"""
+    dtype = rng.choice(["int8"] * 5 + ["uint8"] * 3 + ["int16"] * 1)
+    b = make_builder(rng, f"c01_softmax_{idx}", dtype)
+    h, w, c = rng.choice([1, 1, 2, 3, 5]), rng.choice([1, 1, 2, 4, 7]), rng.choice([1, 2, 3, 5, 10, 16, 17, 33, 40])
+    n = rng.choice([1] * 8 + [2, 3])          # batch > 1 is accepted for SOFTMAX (folded into the height)
+    x = b.input([n, h, w, c])
+    b.net.desc.append(f"profile=softmax dtype={dtype} in={[n, h, w, c]}")
+    cur = x
+    pre = rng.choice(["none", "none", "conv1x1", "fc", "add_self", "reshape2", "reshape3"]) if n == 1 else "none"
+    b.net.desc.append(pre)
+    if pre == "conv1x1":
+        cur = b.conv(cur, rng.choice([2, 5, 10, 16, 21]), (1, 1), (1, 1), (1, 1), "SAME", act=0)
+    elif pre == "fc" and h * w * c <= 512:
+        cur = b.fc(b.reshape(cur, [1, h * w * c]), rng.choice([2, 10, 16, 33]), act=0)
+    elif pre == "add_self":
+        cur = b.binary("ADD", cur, cur)
+    elif pre == "reshape2":
+        cur = b.reshape(cur, [h * w, c])
+    elif pre == "reshape3":
+        cur = b.reshape(cur, [h, w, c])
+    y = add_softmax(b, rng, cur)
+    if len(b.t(y).shape) == 4 and b.t(y).shape[0] == 1 and rng.random() < 0.2:
+        y = reshape_like(b, rng, y)
+    return b.finish([y])
+
+
+def gen_inplace(rng, idx):
+    """A tensor produced outside the Ethos-U operator (graph input or output of a CPU-resident operator) that is read by one
+    elementwise operator whose result may be written over it AND by something that runs later: a CPU-resident operator that
+    also needs the elementwise result (MINIMUM / MAXIMUM of differently quantised tensors is not supported by the NPU and the
+    reference kernel takes the raw minimum / maximum), or a second Ethos-U operator behind that CPU operator. Overwriting the
+    tensor is only allowed when nothing reads it afterwards (`ifm_write_protected`)."""
+    import netgen
+
+    dtype = rng.choice(["int8"] * 6 + ["uint8"] * 3 + ["int16"] * 1)
+    b = make_builder(rng, f"c01_inplace_{idx}", dtype)
+    variant = rng.choice(["cpu_reader", "cpu_reader", "cpu_produced", "second_island", "two_inputs"])
+    h, w = rng.randint(1, 10), rng.randint(1, 10)
+    c = rng.choice([1, 3, 4, 8, 16, 17])
+    x = b.input([1, h, w, c])
+    b.net.desc.append(f"profile=inplace variant={variant} dtype={dtype} in={[1, h, w, c]}")
+    src = x
+    if variant == "cpu_produced":
+        src = b.conv(x, rng.choice([4, 8]), (1, 1), (4, 4), (1, 1), "SAME", act=0)     # mostly CPU-resident (stride 4)
+    lo, hi = netgen._qrange(dtype)
+
+    def elementwise(t):
+        tt = b.t(t)
+        kind = rng.choice(["ADD", "SUB", "MUL", "ADD", "MINIMUM", "MAXIMUM", "LEAKY_RELU"])
+        b.net.desc.append("ew:" + kind)
+        if kind == "LEAKY_RELU":
+            return b.unary("LEAKY_RELU", t)
+        same = kind in ("MINIMUM", "MAXIMUM")
+        if variant == "two_inputs":
+            other = b.input(list(tt.shape), scale=tt.scales[0], zp=tt.zps[0]) if same else b.input(list(tt.shape))
+        else:
+            shp = rng.choice([list(tt.shape), list(tt.shape), [1, 1, 1, tt.shape[3]], [1, 1, 1, 1]])
+            r = np.random.RandomState(rng.getrandbits(32))
+            other = b.const(shp, dtype, r.randint(lo, hi + 1, int(np.prod(shp))), [tt.scales[0] if same else netgen.rand_scale(rng)],
+                            [tt.zps[0] if same else netgen.rand_zp(rng, dtype)])
+        args = (t, other) if rng.random() < 0.7 else (other, t)
+        return b.binary(kind, *args)
+
+    def cpu_minmax(p, q):
+        # output quantisation differs from both inputs: stays on the CPU
+        o = b.fm(list(b.t(p).shape), dtype)
+        kind = rng.choice(["MINIMUM", "MAXIMUM"])
+        b.net.ops.append(netgen.Op(kind, [p, q], [o], ("MaximumMinimumOptions", {})))
+        b.net.desc.append("cpu:" + kind)
+        return o
+
+    if rng.random() < 0.15 and variant in ("cpu_reader", "cpu_produced"):
+        # the elementwise operator reads the tensor through a RESHAPE (kept as a copy because its input has other readers)
+        st_ = b.t(src).shape
+        e = elementwise(b.reshape(src, [1, st_[2], st_[1], st_[3]]))
+        b.net.desc.append("through_reshape")
+        return b.finish([src, e] if src != x else [e, cpu_minmax(src, b.reshape(e, list(st_)))])
+    e = elementwise(src)
+    z = cpu_minmax(*((src, e) if rng.random() < 0.5 else (e, src)))
+    outs = [z] if rng.random() < 0.6 else [e, z]
+    if variant == "second_island":
+        u = b.binary(rng.choice(["ADD", "MUL", "SUB"]), src, z)
+        outs = [u] if rng.random() < 0.5 else [z, u]
+    return b.finish(outs)
+
+
+def gen_shared(rng, idx):
+    """Several operators that share ONE weight tensor and / or ONE bias tensor of the file but differ in what the compiler does
+    with it: stride (a 2x2 stride-2 VALID convolution on an IFM of depth <= 4 that is the first operator is re-laid by
+    fixup_strided_conv), dilation (> 2: fixup_dilation_gt2), IFM / OFM scales, bias, convolution vs transposed convolution,
+    depthwise convolutions. The compressed-weight cache is keyed by the tensor's value id: a rewrite that changes the values
+    without refreshing the id hands one operator the other's weights (round-4 seeded change C08-m1 = C07-m1)."""
+    import netgen
+
+    dtype = rng.choice(["int8"] * 6 + ["uint8"] * 3 + ["int16"] * 1)
+    b = make_builder(rng, f"c01_shared_{idx}", dtype)
+    c = rng.choice([1, 2, 3, 4, 4, 4, 8, 16])
+    h, w = rng.choice([4, 6, 8, 9, 10]), rng.choice([4, 6, 8, 9, 10])
+    x = b.input([1, h, w, c])
+    b.net.desc.append(f"profile=shared dtype={dtype} in={[1, h, w, c]}")
+    outs = []
+
+    def conv_with(t, wt, bt, k, stride, dilation, padding, act=0):
+        tt = b.t(t)
+        oc = b.t(wt).shape[0]
+        oh, ow = b._out_hw(tt.shape[1], tt.shape[2], k[0], k[1], stride[0], stride[1], dilation[0], dilation[1], padding)
+        if oh < 1 or ow < 1:
+            return None
+        y = b.fm([1, oh, ow, oc], dtype)
+        b.net.ops.append(netgen.Op("CONV_2D", [t, wt] + ([bt] if bt is not None else []), [y], ("Conv2DOptions", dict(
+            Padding=0 if padding == "SAME" else 1, StrideW=stride[1], StrideH=stride[0],
+            DilationWFactor=dilation[1], DilationHFactor=dilation[0], FusedActivationFunction=act))))
+        return y
+
+    if rng.random() < 0.2:
+        # depthwise convolutions sharing weights and bias
+        k = rng.choice([(3, 3), (2, 2), (1, 3)])
+        y0 = b.dwconv(x, k, (1, 1), (1, 1), "SAME", act=0)
+        first = b.net.ops[-1]
+        wt, bt = first.inputs[1], first.inputs[2]
+        outs.append(y0)
+        for _ in range(rng.randint(1, 2)):
+            src = rng.choice([x, b.unary("RELU", x), b.pool(x, "MAX_POOL_2D", (2, 2), (1, 1), "SAME")])
+            st = rng.choice([(1, 1), (2, 2), (1, 1)])
+            dl = rng.choice([(1, 1), (2, 2), (3, 3)]) if st == (1, 1) else (1, 1)
+            tt = b.t(src)
+            oh, ow = b._out_hw(tt.shape[1], tt.shape[2], k[0], k[1], st[0], st[1], dl[0], dl[1], "SAME")
+            y = b.fm([1, oh, ow, c], dtype)
+            b.net.ops.append(netgen.Op("DEPTHWISE_CONV_2D", [src, wt, bt], [y], ("DepthwiseConv2DOptions", dict(
+                Padding=0, StrideW=st[1], StrideH=st[0], DepthMultiplier=1, DilationWFactor=dl[1], DilationHFactor=dl[0],
+                FusedActivationFunction=0))))
+            outs.append(y)
+        b.net.desc.append("depthwise")
+        return b.finish(outs)
+    oc = rng.choice([2, 4, 8, 16])
+    k = rng.choice([(2, 2), (2, 2), (3, 3), (1, 1), (2, 3)])
+    first_kind = rng.choice(["strided_first", "strided_first", "plain"])
+    if first_kind == "strided_first":
+        y0 = b.conv(x, oc, k, (2, 2), (1, 1), "VALID", act=0)
+    else:
+        y0 = b.conv(x, oc, k, (1, 1), (1, 1), rng.choice(["SAME", "VALID"]), act=rng.choice([0, 1]))
+    if y0 is None:
+        y0 = b.conv(x, oc, (1, 1), (1, 1), (1, 1), "SAME", act=0)
+        k = (1, 1)
+    first = b.net.ops[-1]
+    wt, bt = first.inputs[1], first.inputs[2]
+    outs.append(y0)
+    for _ in range(rng.randint(1, 3)):
+        kind = rng.choice(["stride", "dilation", "other_input", "new_bias", "tconv", "shared_bias_only"])
+        b.net.desc.append(kind)
+        new = None
+        if kind == "stride":
+            new = conv_with(x, wt, bt, k, rng.choice([(1, 1), (2, 2), (3, 3), (1, 2)]), (1, 1), rng.choice(["SAME", "VALID"]))
+        elif kind == "dilation":
+            new = conv_with(x, wt, bt, k, (1, 1), rng.choice([(2, 2), (3, 3), (4, 4), (3, 1)]), "SAME", act=rng.choice([0, 1]))
+        elif kind == "other_input":
+            src = rng.choice([b.unary("RELU", x), b.pool(x, "MAX_POOL_2D", (2, 2), (1, 1), "SAME"), b.quantize(x)])
+            new = conv_with(src, wt, bt, k, rng.choice([(1, 1), (2, 2)]), (1, 1), rng.choice(["SAME", "VALID"]))
+        elif kind == "new_bias":
+            br = np.random.RandomState(rng.getrandbits(32))
+            bt2 = b.const([oc], b.t(bt).dtype, br.randint(-2000, 2000, oc), list(b.t(bt).scales), [0] * len(b.t(bt).scales), 0, b.fresh("b"))
+            new = conv_with(x, wt, bt2, k, rng.choice([(1, 1), (2, 2)]), (1, 1), rng.choice(["SAME", "VALID"]))
+        elif kind == "tconv" and dtype != "int16" and len(b.t(wt).scales) == 1 and h * w <= 64:
+            st = (2, 2)
+            oh, ow = h * 2, w * 2
+            os_ = b.const([4], "int32", [1, oh, ow, oc], name=b.fresh("oshape"))
+            new = b.fm([1, oh, ow, oc], dtype)
+            b.net.ops.append(netgen.Op("TRANSPOSE_CONV", [os_, wt, x, bt], [new], ("TransposeConvOptions", dict(
+                Padding=0, StrideW=st[1], StrideH=st[0]))))
+        elif kind == "shared_bias_only":
+            y2 = b.conv(x, oc, rng.choice([(1, 1), (3, 3)]), (1, 1), (1, 1), "SAME", act=0, per_channel=len(b.t(wt).scales) > 1)
+            if y2 is not None:
+                op2 = b.net.ops[-1]
+                if len(b.t(op2.inputs[1]).scales) == len(b.t(wt).scales):
+                    op2.inputs[2] = bt
+                new = y2
+        if new is not None:
+            outs.append(new)
+    return b.finish(outs)
+
+
 def gen_net(rng, idx, profile):
     import netgen
 
+    if profile == "shared":
+        return gen_shared(rng, idx)
+    if profile == "softmax":
+        return gen_softmax(rng, idx)
+    if profile == "inplace":
+        return gen_inplace(rng, idx)
     dtype = rng.choice(["int8"] * 6 + ["uint8"] * 3 + ["int16"] * 1)
     b = make_builder(rng, f"c01_{profile}_{idx}", dtype)
     if profile == "cascade":
@@ -66,13 +292,16 @@ def gen_net(rng, idx, profile):
         h, w, c = rng.randint(1, 4), rng.randint(1, 4), rng.choice([16, 32, 48])
     else:
         h, w, c = rng.randint(1, 12), rng.randint(1, 12), rng.choice([1, 2, 3, 4, 8, 16, 16, 17, 24])
+    if profile in ("weights", "conv") and rng.random() < 0.15:
+        h = w = 1            # convolutions on a 1x1 map (a 1x1 kernel is rewritten to a fully connected operator)
     x = b.input([1, h, w, c])
     b.net.desc.append(f"profile={profile} dtype={dtype} in={[1, h, w, c]}")
     menu = {
-        "conv": ["conv", "conv", "conv1x1", "dwconv", "maxpool", "avgpool_valid", "relu", "fc_end", "tconv"],
+        "conv": ["conv", "conv", "conv1x1", "dwconv", "maxpool", "avgpool_valid", "relu", "fc_end", "tconv", "fc_batch", "avgpool_wide"],
         "elementwise": ["add_self", "add_skip", "mul_const", "sub_const", "add_const", "minmax", "relu", "lrelu", "quantize",
-                        "conv1x1", "mul_skip"],
-        "memory": ["concat", "split_concat", "slice", "pad_conv", "reshape_back", "conv1x1", "relu", "maxpool", "pad", "squeeze_expand"],
+                        "conv1x1", "mul_skip", "hswish", "add_const", "sqdiff", "abs", "prelu"],
+        "memory": ["concat", "split_concat", "slice", "pad_conv", "reshape_back", "conv1x1", "relu", "maxpool", "pad", "squeeze_expand",
+                   "transpose", "slice_op", "split_v", "pack_end", "unpack_end", "abs"],
         "cascade": ["conv", "conv", "dwconv", "maxpool", "avgpool_valid", "conv1x1", "add_skip", "relu"],
         "weights": ["conv", "conv1x1", "conv1x1", "fc_end", "dwconv"],
         "cpu": ["conv_cpu", "conv", "add_self", "relu", "maxpool", "conv1x1", "conv_cpu", "concat"],
@@ -83,9 +312,10 @@ def gen_net(rng, idx, profile):
     cur = x
     avoid = set()
     nops = rng.randint(1, 5 if profile != "cascade" else 4)
+    stop, unpacked = False, None
     for step in range(nops):
         xt = b.t(cur)
-        if len(xt.shape) != 4:
+        if len(xt.shape) != 4 or stop:
             break
         kind = rng.choice(menu.get(profile, allk))
         # The one composition that hits the open finding (known_findings.txt, reproduced deterministically by a corpus
@@ -98,7 +328,7 @@ def gen_net(rng, idx, profile):
         if kind == "conv":
             k = rng.choice([(1, 1), (3, 3), (3, 3), (5, 5), (2, 2), (1, 3), (3, 1), (2, 3)])
             s = rng.choice([(1, 1), (1, 1), (2, 2), (3, 3), (1, 2), (2, 1)])
-            d = rng.choice([(1, 1), (1, 1), (1, 1), (2, 2)]) if s == (1, 1) else (1, 1)
+            d = rng.choice([(1, 1)] * 6 + [(2, 2)] * 2 + [(3, 3)]) if s == (1, 1) else (1, 1)      # > 2: fixup_dilation_gt2
             oc = rng.choice([1, 3, 4, 8, 16, 17]) if profile != "weights" else rng.choice([32, 48, 64])
             new = b.conv(cur, oc, k, s, d, pick_padding(rng, k, s), act=rng.choice([0, 0, 1, 3, 2]))
         elif kind == "conv_cpu":      # stride 4 is outside what the NPU supports: stays on the CPU
@@ -109,6 +339,10 @@ def gen_net(rng, idx, profile):
             k = rng.choice([(3, 3), (3, 3), (5, 5), (2, 2), (1, 1), (1, 3)])
             s = rng.choice([(1, 1), (1, 1), (2, 2), (3, 3)])
             new = b.dwconv(cur, k, s, (1, 1), pick_padding(rng, k, s), act=rng.choice([0, 1, 3]))
+        elif kind == "avgpool_wide" and ww >= 8 and xt.dtype != "int16":
+            # stride width above 3: converted to a convolution whose width is folded into the channels
+            k = rng.choice([(2, 2), (1, 2), (2, 4), (1, 4)])
+            new = b.pool(cur, "AVERAGE_POOL_2D", k, (rng.choice([1, 2]), rng.choice([4, 4, 5, 6])), "VALID")
         elif kind in ("maxpool", "avgpool_valid", "avgpool_same"):
             k = rng.choice([(2, 2), (3, 3), (2, 2), (1, 1), (4, 4), (2, 3)])
             s = rng.choice([(1, 1), (2, 2), (2, 2), (3, 3)])
@@ -124,9 +358,11 @@ def gen_net(rng, idx, profile):
             shp = rng.choice([[1, 1, 1, cc], [1, 1, 1, 1], list(xt.shape), [1, 1, ww, cc]])
             lo, hi = netgen._qrange(xt.dtype)
             r = np.random.RandomState(rng.getrandbits(32))
-            c2 = b.const(shp, xt.dtype, r.randint(lo, hi + 1, int(np.prod(shp))), [netgen.rand_scale(rng)],
-                         [netgen.rand_zp(rng, xt.dtype)])
-            args = (cur, c2) if rng.random() < 0.6 else (c2, cur)
+            first = rng.random() < 0.4
+            # a constant / broadcast FIRST operand with the smaller scale: operands are swapped and the scaled one changes sides
+            c_scale = float(np.float32(xt.scales[0] * rng.uniform(0.05, 0.9))) if first and rng.random() < 0.6 else netgen.rand_scale(rng)
+            c2 = b.const(shp, xt.dtype, r.randint(lo, hi + 1, int(np.prod(shp))), [c_scale], [netgen.rand_zp(rng, xt.dtype)])
+            args = (c2, cur) if first else (cur, c2)
             new = b.binary({"mul_const": "MUL", "sub_const": "SUB", "add_const": "ADD"}[kind], *args)
         elif kind == "minmax":
             other = b.pool(cur, "MAX_POOL_2D", (3, 3), (1, 1), "SAME") if rng.random() < 0.5 else cur
@@ -139,11 +375,84 @@ def gen_net(rng, idx, profile):
                 _same_quant(b, new, cur)
         elif kind == "quantize":
             new = b.quantize(cur)
+        elif kind == "sqdiff" and xt.dtype != "uint8":
+            if rng.random() < 0.5:
+                cands = [t for t in live if b.t(t).shape == xt.shape and b.t(t).dtype == xt.dtype]
+                other = rng.choice(cands)
+            else:
+                r = np.random.RandomState(rng.getrandbits(32))
+                lo, hi = netgen._qrange(xt.dtype)
+                shp = rng.choice([[1, 1, 1, cc], list(xt.shape)])
+                other = b.const(shp, xt.dtype, r.randint(lo, hi + 1, int(np.prod(shp))), [netgen.rand_scale(rng)], [netgen.rand_zp(rng, xt.dtype)])
+            new = b.fm(list(xt.shape), xt.dtype, scale=float(np.float32(rng.choice([0.05, 0.5, 1.0, 4.0]) * rng.uniform(0.5, 1.0))))
+            b.net.ops.append(netgen.Op("SQUARED_DIFFERENCE", [cur, other], [new], ("SquaredDifferenceOptions", {})))
+        elif kind == "prelu" and xt.dtype != "int16":
+            # constant alpha per channel: all equal (-> LEAKY_RELU / RELU), all below one (-> MUL, MUL, MAX), anything (-> MIN, MUL, RELU, ADD)
+            style = rng.choice(["same", "small", "mixed"])
+            r = np.random.RandomState(rng.getrandbits(32))
+            lo, hi = netgen._qrange(xt.dtype)
+            za = rng.choice([0, 0, 3, -5]) if xt.dtype == "int8" else rng.choice([0, 100, 128])
+            if style == "same":
+                vals = np.full(cc, rng.randint(max(lo, za - 100), min(hi, za + 100)))
+            elif style == "small":
+                vals = r.randint(max(lo, za - 30), min(hi, za + 30) + 1, cc)
+            else:
+                vals = r.randint(lo, hi + 1, cc)
+            al = b.const([1, 1, cc], xt.dtype, vals, [rng.choice([0.004, 0.01, 0.02, 0.05])], [za])
+            new = b.fm(list(xt.shape), xt.dtype) if rng.random() < 0.7 else b.fm(list(xt.shape), xt.dtype, scale=xt.scales[0], zp=xt.zps[0])
+            b.net.ops.append(netgen.Op("PRELU", [cur, al], [new], None))
+        elif kind == "abs" and xt.dtype != "uint8":
+            new = b.fm(list(xt.shape), xt.dtype) if rng.random() < 0.7 else b.fm(list(xt.shape), xt.dtype, scale=xt.scales[0])
+            b.net.ops.append(netgen.Op("ABS", [cur], [new], ("AbsOptions", {})))
+        elif kind == "slice_op" and hh >= 2:
+            b0, b1 = rng.randint(0, hh - 1), rng.randint(0, ww - 1)
+            sz = [1, rng.randint(1, hh - b0), rng.randint(1, ww - b1), cc]
+            bt = b.const([4], "int32", [0, b0, b1, 0], name=b.fresh("begin"))
+            st_ = b.const([4], "int32", sz, name=b.fresh("size"))
+            new = b.fm(sz, xt.dtype, scale=xt.scales[0], zp=xt.zps[0])
+            b.net.ops.append(netgen.Op("SLICE", [cur, bt, st_], [new], ("SliceOptions", {})))
+        elif kind == "split_v" and cc >= 2:
+            a_ = rng.randint(1, cc - 1)
+            szt = b.const([2], "int32", [a_, -1] if rng.random() < 0.5 else [a_, cc - a_], name=b.fresh("sizes"))
+            axt = b.const([], "int32", [3], name=b.fresh("axis"))
+            o1 = b.fm([1, hh, ww, a_], xt.dtype, scale=xt.scales[0], zp=xt.zps[0])
+            o2 = b.fm([1, hh, ww, cc - a_], xt.dtype, scale=xt.scales[0], zp=xt.zps[0])
+            b.net.ops.append(netgen.Op("SPLIT_V", [cur, szt, axt], [o1, o2], ("SplitVOptions", dict(NumSplits=2))))
+            new = b.concat([b.unary("RELU", o2), o1], 3)
+            _same_quant(b, new, cur)
+        elif kind == "pack_end" and (hh == 1 or rng.random() < 0.2):
+            # stack two HxWxC tensors; an axis that gives the 4-D result a leading dimension > 1 is the open finding
+            other = b.unary("RELU", cur)
+            s1, s2 = b.reshape(cur, [hh, ww, cc]), b.reshape(other, [hh, ww, cc])
+            ax = rng.choice([0, 1, 2, 3, 3])
+            os_ = [hh, ww, cc][:ax] + [2] + [hh, ww, cc][ax:]
+            new = b.fm(os_, xt.dtype, scale=xt.scales[0], zp=xt.zps[0])
+            b.net.ops.append(netgen.Op("PACK", [s1, s2], [new], ("PackOptions", dict(ValuesCount=2, Axis=ax))))
+            stop = True
+        elif kind == "unpack_end" and min(hh, ww) <= 4:
+            ax = 1 if hh <= ww else 2
+            n_ = xt.shape[ax]
+            os_ = [d for i_, d in enumerate(xt.shape) if i_ != ax]
+            outs_u = [b.fm(os_, xt.dtype, scale=xt.scales[0], zp=xt.zps[0]) for _ in range(n_)]
+            b.net.ops.append(netgen.Op("UNPACK", [cur], outs_u, ("UnpackOptions", dict(Num=n_, Axis=ax))))
+            unpacked = outs_u
+            new = outs_u[0]
+            stop = True
+        elif kind == "hswish" and xt.dtype != "int16":
+            new = b.unary("HARD_SWISH", cur)
+        elif kind == "transpose" and xt.dtype != "int16":
+            perm = [0, 2, 1, 3] if not (hh == 1 or ww == 1) else rng.choice([[0, 2, 1, 3], [0, 1, 3, 2] if hh == 1 else [0, 3, 2, 1]])
+            pt = b.const([4], "int32", perm, name=b.fresh("perm"))
+            new = b.fm([xt.shape[p_] for p_ in perm], xt.dtype, scale=xt.scales[0], zp=xt.zps[0])
+            b.net.ops.append(netgen.Op("TRANSPOSE", [cur, pt], [new], ("TransposeOptions", {})))
         elif kind == "concat":
             other = rng.choice([b.unary("RELU", cur), b.pool(cur, "MAX_POOL_2D", (3, 3), (1, 1), "SAME"), cur])
-            axis = rng.choice([3, 3, 1, 2])
+            axis = rng.choice([3, 3, 1, 2] * 4 + [0])      # axis 0: OFM batch 2 (open finding / CPU fallback once repaired)
             new = b.concat([cur, other] if rng.random() < 0.5 else [other, cur, other], axis)
-            _same_quant(b, new, cur)
+            if rng.random() < 0.75:
+                _same_quant(b, new, cur)        # otherwise the inputs are requantised (approximated class)
+            if axis == 0:
+                stop = True                     # batch 2 from here on: nothing else accepts it
         elif kind == "split_concat" and cc % 2 == 0:
             o1, o2 = b.split(cur, 2, 3)
             o1 = b.unary("RELU", o1)
@@ -152,7 +461,37 @@ def gen_net(rng, idx, profile):
         elif kind == "slice" and hh >= 2 and ww >= 2:
             b0, b1 = rng.randint(0, hh - 1), rng.randint(0, ww - 1)
             c0 = rng.choice([0, 0, cc // 2])
-            new = b.strided_slice(cur, [0, b0, b1, c0], [1, rng.randint(b0 + 1, hh), rng.randint(b1 + 1, ww), cc])
+            e0, e1 = rng.randint(b0 + 1, hh), rng.randint(b1 + 1, ww)
+            style = rng.choice(["plain"] * 5 + ["strided", "masks", "negative"])
+            if style == "plain":
+                new = b.strided_slice(cur, [0, b0, b1, c0], [1, e0, e1, cc])
+            else:
+                # variants the NPU does not take (strides) or that need the masks / negative indices resolved
+                b.net.desc[-1] += ":" + style
+                st = [1, 1, 1, 1]
+                bm = em = 0
+                bv, ev = [0, b0, b1, c0], [1, e0, e1, cc]
+                if style == "strided":
+                    st = [1, rng.choice([1, 2]), rng.choice([2, 3]), 1]
+                elif style == "masks":
+                    bm, em = rng.choice([2, 4, 6]), rng.choice([2, 4, 6, 8])
+                    for i_ in range(4):
+                        if (bm >> i_) & 1:
+                            bv[i_] = rng.randint(0, 5)
+                        if (em >> i_) & 1:
+                            ev[i_] = rng.randint(0, 5)
+                else:
+                    bv, ev = [0, b0 - hh, b1, c0], [1, e0, e1 - ww if e1 < ww else e1, cc]
+                rb = [0 if (bm >> i_) & 1 else bv[i_] % xt.shape[i_] if bv[i_] < 0 else bv[i_] for i_ in range(4)]
+                re_ = [xt.shape[i_] if (em >> i_) & 1 else (ev[i_] + xt.shape[i_] if ev[i_] < 0 else ev[i_]) for i_ in range(4)]
+                shape_o = [(y_ - x_ + s_ - 1) // s_ for x_, y_, s_ in zip(rb, re_, st)]
+                if all(d_ > 0 for d_ in shape_o):
+                    bt = b.const([4], "int32", bv, name=b.fresh("begin"))
+                    et = b.const([4], "int32", ev, name=b.fresh("end"))
+                    stt = b.const([4], "int32", st, name=b.fresh("strides"))
+                    new = b.fm(shape_o, xt.dtype, scale=xt.scales[0], zp=xt.zps[0])
+                    b.net.ops.append(netgen.Op("STRIDED_SLICE", [cur, bt, et, stt], [new], ("StridedSliceOptions", dict(
+                        BeginMask=bm, EndMask=em, EllipsisMask=0, NewAxisMask=0, ShrinkAxisMask=0))))
         elif kind == "pad":
             new = b.pad(cur, [[0, 0], [rng.randint(0, 2), rng.randint(0, 2)], [rng.randint(0, 2), rng.randint(0, 2)], [0, 0]])
         elif kind == "pad_conv":
@@ -171,6 +510,9 @@ def gen_net(rng, idx, profile):
             b.net.ops.append(netgen.Op("EXPAND_DIMS", [sq, axt], [new], ("ExpandDimsOptions", {})))
         elif kind == "tconv" and hh * ww <= 36 and xt.dtype != "int16":
             new = b.transpose_conv(cur, rng.choice([1, 4, 8]), rng.choice([(2, 2), (3, 3)]), (2, 2), rng.choice(["SAME", "VALID"]))
+        elif kind == "fc_batch" and 1 < hh * ww <= 16:
+            flat = b.reshape(cur, [hh * ww, cc])        # batch > 1 is accepted for FULLY_CONNECTED
+            new = b.fc(flat, rng.choice([1, 10, 16]), act=rng.choice([0, 1]))
         elif kind == "fc_end" and hh * ww * cc <= 512:
             flat = b.reshape(cur, [1, hh * ww * cc])
             new = b.fc(flat, rng.choice([1, 10, 16]), act=rng.choice([0, 1]))
@@ -184,27 +526,56 @@ def gen_net(rng, idx, profile):
         if last.kind == "LEAKY_RELU" and dtype == "int16":
             # int16 LEAKY_RELU with differing scales is lowered to MUL/MUL/MAX; a RESHAPE behind it goes wrong (open finding)
             avoid = {"fc_end", "reshape_back", "squeeze_expand"}
+        elif not stop and len(b.t(cur).shape) == 4 and b.t(cur).shape[0] == 1 and rng.random() < 0.08:
+            # operator -> RESHAPE-like: the memory-only operator is bypassed before the producer is lowered
+            cur = reshape_like(b, rng, cur)
+            live.append(cur)
     if profile == "approx" and len(b.t(cur).shape) == 4:
         # the approximated operator comes last so that its error is not amplified
-        which = rng.choice(["avgpool_same", "avgpool_same", "logistic", "tanh", "resize", "resize"])
+        which = rng.choice(["avgpool_same", "avgpool_same", "logistic", "tanh", "resize", "resize", "mean", "mean", "exp", "softmax", "argmax"])
         hh, ww, cc = b.t(cur).shape[1:]
+        if which in ("exp", "argmax") and b.t(cur).dtype == "int16":
+            which = "mean"
+        if which == "argmax" and cc > 127:
+            which = "mean"
         if which == "resize" and (hh * ww > 36 or b.t(cur).dtype == "int16"):
             which = "avgpool_same"
         b.net.desc.append(which)
         if which == "avgpool_same":
             k = rng.choice([(2, 2), (3, 3), (3, 3), (5, 5)])
             new = b.pool(cur, "AVERAGE_POOL_2D", k, rng.choice([(1, 1), (2, 2)]), "SAME")
+        elif which == "mean":
+            ct = b.t(cur)
+            axes, keep = rng.choice([([1, 2], True), ([1, 2], True), ([1, 2], False), ([1], True), ([2], True)] +
+                                    ([([3], True), ([3], False)] if 1 in (hh, ww) else []))
+            ax = b.const([len(axes)], "int32", axes, name=b.fresh("axes"))
+            oshape = [d for i, d in enumerate([1, 1 if 1 in axes else hh, 1 if 2 in axes else ww, 1 if 3 in axes else cc]) if keep or i not in axes]
+            same = rng.random() < 0.3
+            new = b.fm(oshape, ct.dtype, scale=ct.scales[0] if same else None, zp=ct.zps[0] if same else None)
+            b.net.ops.append(netgen.Op("MEAN", [cur, ax], [new], ("ReducerOptions", dict(KeepDims=keep))))
+        elif which == "exp":
+            new = b.fm(list(b.t(cur).shape), b.t(cur).dtype)
+            b.net.ops.append(netgen.Op("EXP", [cur], [new], None))
+        elif which == "softmax":
+            new = add_softmax(b, rng, cur)
+        elif which == "argmax":
+            ax = b.const([], "int32", [3], name=b.fresh("axis"))
+            ot = rng.choice(["int32", "int64"])
+            new = b.net.add(netgen.T(b.fresh("t"), [1, hh, ww], ot))
+            b.net.ops.append(netgen.Op("ARG_MAX", [cur, ax], [new], ("ArgMaxOptions", dict(OutputType={"int32": 2, "int64": 4}[ot]))))
         elif which == "resize":
             kind_r = rng.choice(["RESIZE_BILINEAR", "RESIZE_NEAREST_NEIGHBOR"])
             al, hp = rng.choice([(False, False), (True, False), (False, True)])
             if al and (hh == 1 or ww == 1 or (kind_r == "RESIZE_NEAREST_NEIGHBOR" and cc > 1)):
                 al = False          # crashes recorded under C13
-            new = b.resize(cur, 2, kind_r, al, hp)
+            new = b.resize(cur, 4 if hh * ww <= 9 and rng.random() < 0.3 else 2, kind_r, al, hp)
         else:
             new = b.unary("LOGISTIC" if which == "logistic" else "TANH", cur)
         if new is not None:
             cur = new
-    outs = [cur]
+            if len(b.t(cur).shape) == 4 and b.t(cur).shape[0] == 1 and rng.random() < 0.3:
+                cur = reshape_like(b, rng, cur)
+    outs = [cur] if unpacked is None or cur != unpacked[0] else list(unpacked)
     if len(live) > 2 and rng.random() < 0.2:
         extra = rng.choice(live[1:-1])
         if extra not in outs:
@@ -220,8 +591,97 @@ def corpus_net(rng, name):
     ones, a deterministic witness for the open one (known_lrelu16_reshape)"""
     import netgen
 
+    if name in ("known_resize_reshape", "known_mean_reshape", "known_widepool_reshape"):
+        b = make_builder(rng, name, "int8")
+        if name == "known_resize_reshape":
+            x = b.input([1, 4, 4, 4], scale=0.05, zp=3)
+            y = b.resize(x, 2, "RESIZE_BILINEAR", False, False)
+            z = b.reshape(y, [1, 256])
+        elif name == "known_mean_reshape":
+            x = b.input([1, 8, 8, 4], scale=0.05, zp=3)
+            ax = b.const([2], "int32", [1, 2], name=b.fresh("axes"))
+            y = b.fm([1, 4], "int8", scale=0.04, zp=-2)
+            b.net.ops.append(netgen.Op("MEAN", [x, ax], [y], ("ReducerOptions", dict(KeepDims=False))))
+            z = b.reshape(y, [4, 1])
+        else:
+            x = b.input([1, 8, 12, 4], scale=0.05, zp=3)
+            y = b.pool(x, "AVERAGE_POOL_2D", (2, 2), (1, 4), "VALID")
+            z = b.reshape(y, [1, 84])
+        return b.finish([z])
+    if name == "known_protected_reshape_inplace":
+        b = make_builder(rng, name, "int8")
+        x = b.input([1, 8, 12, 17], scale=0.05, zp=3)
+        y = b.conv(x, 4, (1, 1), (4, 4), (1, 1), "SAME", act=0)       # stays on the CPU
+        r = b.reshape(y, [1, 3, 2, 4])
+        z = b.fm([1, 3, 2, 4], "int8", scale=0.04, zp=-10)
+        b.net.ops.append(netgen.Op("ABS", [r], [z], ("AbsOptions", {})))
+        return b.finish([y, z])
+    if name == "known_transpose_lut_mul":
+        b = make_builder(rng, name, "int8")
+        x = b.input([1, 5, 5, 16], scale=0.089, zp=-101)
+        pt = b.const([4], "int32", [0, 2, 1, 3], name=b.fresh("perm"))
+        t_ = b.fm([1, 5, 5, 16], "int8", scale=0.089, zp=-101)
+        b.net.ops.append(netgen.Op("TRANSPOSE", [x, pt], [t_], ("TransposeOptions", {})))
+        al = b.const([1, 1, 16], "int8", np.full(16, 70), [0.01], [-5])
+        y = b.fm([1, 5, 5, 16], "int8", scale=0.00296, zp=-35)
+        b.net.ops.append(netgen.Op("PRELU", [t_, al], [y], None))
+        c = b.const([1, 5, 5, 16], "int8", np.random.RandomState(3).randint(-128, 128, 400), [0.0038], [-84])
+        o = b.fm([1, 5, 5, 16], "int8", scale=0.00139, zp=102)
+        b.net.ops.append(netgen.Op("MUL", [y, c], [o], ("MulOptions", dict(FusedActivationFunction=0))))
+        return b.finish([o])
+    if name == "known_prelu_reshape":
+        b = make_builder(rng, name, "int8")
+        x = b.input([1, 3, 4, 6], scale=0.05, zp=3)
+        al = b.const([1, 1, 6], "int8", [-20, -3, 5, 12, 30, 64], [0.02], [0])
+        y = b.fm([1, 3, 4, 6], "int8", scale=0.06, zp=-5)
+        b.net.ops.append(netgen.Op("PRELU", [x, al], [y], None))
+        return b.finish([b.reshape(y, [1, 12, 1, 6])])
+    if name in ("known_transpose_relu", "known_sqdiff_reshape", "known_dilation3_uint8", "known_shared_dilation3", "known_shared_tconv"):
+        dt = "uint8" if name in ("known_dilation3_uint8", "known_shared_tconv") else "int8"
+        b = make_builder(rng, name, dt)
+        if name == "known_transpose_relu":
+            x = b.input([1, 3, 3, 17], scale=0.05, zp=3)
+            pt = b.const([4], "int32", [0, 2, 1, 3], name=b.fresh("perm"))
+            t_ = b.fm([1, 3, 3, 17], "int8", scale=0.05, zp=3)
+            b.net.ops.append(netgen.Op("TRANSPOSE", [x, pt], [t_], ("TransposeOptions", {})))
+            return b.finish([b.unary("RELU6", t_)])
+        if name == "known_sqdiff_reshape":
+            x = b.input([1, 3, 3, 5], scale=0.05, zp=3)
+            x2 = b.input([1, 3, 3, 5], scale=0.04, zp=-4)
+            y = b.fm([1, 3, 3, 5], "int8", scale=0.5, zp=-20)
+            b.net.ops.append(netgen.Op("SQUARED_DIFFERENCE", [x, x2], [y], ("SquaredDifferenceOptions", {})))
+            return b.finish([b.reshape(y, [1, 45])])
+        x = b.input([1, 8, 8, 3], scale=0.05, zp=120 if dt == "uint8" else 3)
+        if name == "known_dilation3_uint8":
+            return b.finish([b.conv(x, 4, (3, 3), (1, 1), (3, 3), "SAME", act=0, per_channel=False)])
+        y0 = b.conv(x, 4, (3, 3), (1, 1), (1, 1), "SAME", act=0, per_channel=False)
+        f = b.net.ops[-1]
+        if name == "known_shared_dilation3":
+            y1 = b.fm([1, 8, 8, 4], dt)
+            b.net.ops.append(netgen.Op("CONV_2D", [x, f.inputs[1], f.inputs[2]], [y1], ("Conv2DOptions", dict(
+                Padding=0, StrideW=1, StrideH=1, DilationWFactor=3, DilationHFactor=3, FusedActivationFunction=0))))
+        else:
+            os_ = b.const([4], "int32", [1, 16, 16, 4], name=b.fresh("oshape"))
+            y1 = b.fm([1, 16, 16, 4], dt)
+            b.net.ops.append(netgen.Op("TRANSPOSE_CONV", [os_, f.inputs[1], x, f.inputs[2]], [y1], ("TransposeConvOptions", dict(
+                Padding=0, StrideW=2, StrideH=2))))
+        return b.finish([y0, y1])
+    if name == "known_concat_batch_axis":
+        b = make_builder(rng, name, "int8")
+        x = b.input([1, 3, 3, 5], scale=0.05, zp=3)
+        r = b.unary("RELU", x)
+        z = b.fm([2, 3, 3, 5], "int8", scale=0.05, zp=3)
+        b.net.ops.append(netgen.Op("CONCATENATION", [x, r], [z], ("ConcatenationOptions", dict(Axis=0, FusedActivationFunction=0))))
+        return b.finish([z])
+    if name == "known_mean_unit_axes":
+        b = make_builder(rng, name, "int8")
+        x = b.input([1, 1, 1, 12], scale=0.0146, zp=-17)
+        ax = b.const([2], "int32", [1, 2], name=b.fresh("axes"))
+        z = b.fm([1, 1, 1, 12], "int8", scale=0.0199, zp=-20)
+        b.net.ops.append(netgen.Op("MEAN", [x, ax], [z], ("ReducerOptions", dict(KeepDims=True))))
+        return b.finish([z])
     b = make_builder(rng, name, "int16" if name in ("known_fc_int16", "known_lrelu16_relu6", "known_lrelu16_reshape", "known_lrelu16_rounding")
-                     else ("uint8" if name == "known_dilation3_uint8" else "int8"))
+                     else ("uint8" if name == "known_dilation3_asym" else "int8"))
     if name == "known_fc_int16":
         x = b.input([1, 2, 1, 16], scale=0.0011566292960196733, zp=0)
     elif name == "known_lrelu16_relu6":
@@ -234,8 +694,8 @@ def corpus_net(rng, name):
       x = b.input({"known_pad_conv_reshape": [1, 4, 9, 4], "known_lut_reshape": [1, 3, 9, 8],
                  "known_cascade_stale_row": [1, 10, 8, 8], "known_slice_strided_conv": [1, 6, 6, 4],
                  "known_pad_concat": [1, 1, 3, 16], "known_pad_strided_dw": [1, 10, 9, 4], "known_sconv_unit_output": [1, 2, 18, 4],
-                 "known_sconv_filter_shift": [1, 4, 24, 3], "known_dilation3_uint8": [1, 12, 12, 4]}.get(name, [1, 6, 6, 8]), scale=0.05,
-                zp=120 if name == "known_dilation3_uint8" else 3)
+                 "known_sconv_filter_shift": [1, 4, 24, 3], "known_dilation3_asym": [1, 12, 12, 4]}.get(name, [1, 6, 6, 8]), scale=0.05,
+                zp=120 if name == "known_dilation3_asym" else 3)
     if name == "known_slice_relu":
         y = b.pool(x, "MAX_POOL_2D", (3, 3), (1, 1), "SAME")
         s = b.strided_slice(y, [0, 1, 2, 0], [1, 5, 6, 8])
@@ -308,7 +768,7 @@ def corpus_net(rng, name):
     elif name == "known_avgpool_wide_stride":
         # width stride 8: lowered to a convolution (width folded by fixup_strided_conv); depth 2
         z = b.pool(x, "AVERAGE_POOL_2D", (2, 4), (2, 8), "VALID")
-    elif name == "known_dilation3_uint8":
+    elif name == "known_dilation3_asym":
         # dilation 3 is done in software (sparse kernel); uint8 weights have a non-zero zero point
         z = b.conv(x, 4, (3, 3), (1, 1), (3, 3), "SAME", act=0)
         b.t(b.net.ops[-1].inputs[1]).zps = [138]
@@ -380,6 +840,12 @@ def _worker(job):
                                 if t.data is not None and np.asarray(t.data).size == 1},
                    src_pads={i: np.asarray(t.data).reshape(-1, 2).tolist() for i, t in enumerate(net.tensors)
                              if t.data is not None and t.dtype == "int32" and np.asarray(t.data).size in (6, 8)},
+                   src_outputs=list(net.outputs),
+                   src_dil=[max(int((o.opts[1] if o.opts else {}).get("DilationWFactor", 1)), int((o.opts[1] if o.opts else {}).get("DilationHFactor", 1)))
+                            for o in net.ops],
+                   src_tinfo=[(list(t.shape), t.dtype, [float(x) for x in (t.scales or [])], [int(z) for z in (t.zps or [])],
+                               [int(v) for v in np.asarray(t.data).reshape(-1)] if t.data is not None and t.dtype == "int32" and np.asarray(t.data).size <= 8 else None)
+                              for t in net.tensors],
                    src_graph=[(o.kind, list(o.inputs), list(o.outputs), int((o.opts[1] if o.opts else {}).get("FusedActivationFunction", 0)),
                                int((o.opts[1] if o.opts else {}).get("Padding", -1)),
                                max(int((o.opts[1] if o.opts else {}).get("StrideW", 1)), int((o.opts[1] if o.opts else {}).get("StrideH", 1))))
@@ -397,7 +863,8 @@ def _worker(job):
             out["features"] = sorted(feats)
             out["npu_stream_ops"] = nops
             try:
-                sets = c01_lib.make_inputs(rng, data, k_inputs)
+                out["input_specs"] = c01_lib.input_specs(data)
+                sets = c01_lib.inputs_from_specs(rng, out["input_specs"], k_inputs)
                 if profile == "known_lrelu16_rounding":       # small negative inputs are where the two roundings differ
                     sets[0] = [np.resize(np.arange(-39, 0), 32).astype("<i2").tobytes().hex()]
                 line, sg, og = c01_lib.build_request(data, res, sets, capture)
@@ -434,8 +901,113 @@ def run_lean(lines, jobs=16):
 MEMORY_ONLY = ("RESHAPE", "SQUEEZE", "EXPAND_DIMS")
 
 
+def mean_over_unit_axes(o):
+    """the source network has a MEAN whose reduced axes all have extent 1 and whose input and output quantisation differ"""
+    ti = o.get("src_tinfo") or []
+    for kind, ins, outs, faf, pad, stride in o.get("src_graph") or []:
+        if kind != "MEAN" or len(ins) < 2:
+            continue
+        shape, _dt, sc_i, zp_i, _ = ti[ins[0]]
+        axes = ti[ins[1]][4]
+        _s, _d, sc_o, zp_o, _ = ti[outs[0]]
+        if axes is not None and all(shape[a] == 1 for a in axes) and (sc_i, zp_i) != (sc_o, zp_o):
+            return True
+    return False
+
+
+def ofm_batch_above_one(o):
+    """the source network has a CONCATENATION / PACK whose inputs have batch 1 (as 4-D tensors) but whose output has a leading
+    dimension > 1"""
+    ti = o.get("src_tinfo") or []
+    for kind, ins, outs, faf, pad, stride in o.get("src_graph") or []:
+        if kind in ("CONCATENATION", "PACK"):
+            oshape = ti[outs[0]][0]
+            if len(oshape) == 4 and oshape[0] > 1 and all(len(ti[i][0]) < 4 or ti[i][0][0] == 1 for i in ins):
+                return True
+    return False
+
+
+def lowered_then_reshaped(o):
+    """kind of a source operator with its own lowering (SQUARED_DIFFERENCE, PRELU) whose output is consumed by a memory-only
+    operator, or None. (MEAN, RESIZE_*, wide-stride AVERAGE_POOL_2D were repaired: fc368d6, 2336257, 8bc6c2d; their corpus
+    networks stay as regression tests.)"""
+    g = o.get("src_graph") or []
+    consumers = {}
+    for kind, ins, outs, faf, pad, stride in g:
+        for t in ins:
+            consumers.setdefault(t, []).append(kind)
+    for kind, ins, outs, faf, pad, stride in g:
+        if any(c in MEMORY_ONLY for c in consumers.get(outs[0], [])):
+            if kind == "SQUARED_DIFFERENCE":
+                return "squared-difference"
+            if kind == "PRELU":
+                return "prelu"
+    return None
+
+
+def weights_findings(o):
+    """open findings about weights, by the structure of the source network: operators sharing one weight tensor of the file
+    (convolution + transposed convolution; one of them with a dilation above 2), a uint8 convolution with a dilation above 2"""
+    g = o.get("src_graph") or []
+    dil = o.get("src_dil") or [1] * len(g)
+    users = {}
+    for k, (kind, ins, outs, faf, pad, stride) in enumerate(g):
+        if kind in ("CONV_2D", "DEPTHWISE_CONV_2D"):
+            users.setdefault(ins[1], []).append((kind, dil[k]))
+        elif kind == "TRANSPOSE_CONV":
+            users.setdefault(ins[1], []).append((kind, 1))
+    for us in users.values():
+        kinds = {k_ for k_, _ in us}
+        if "TRANSPOSE_CONV" in kinds and len(kinds) > 1:
+            return "shared-weights-of-conv-and-transpose-conv-share-one-encoded-stream"
+    for us in users.values():
+        if len(us) > 1 and any(d > 2 for _, d in us) and len({d for _, d in us}) > 1:
+            return "shared-weights-dilation-above-two-keeps-value-id"
+    if o.get("dtype") == "uint8" and any(d > 2 for d in dil):
+        return "dilation-above-two-kernel-filled-with-raw-zeros"
+    return None
+
+
+def transpose_then_activation(o):
+    g = o.get("src_graph") or []
+    consumers = {}
+    for kind, ins, outs, faf, pad, stride in g:
+        for t in ins:
+            consumers.setdefault(t, []).append(kind)
+    post = ("RELU", "RELU6", "RELU_N1_TO_1", "LEAKY_RELU", "PRELU", "TANH", "LOGISTIC", "HARD_SWISH", "EXP")
+    return any(kind == "TRANSPOSE" and any(c in post for c in consumers.get(outs[0], []))
+               for kind, ins, outs, faf, pad, stride in g)
+
+
+ELEMENTWISE_KINDS = ("ADD", "SUB", "MUL", "MINIMUM", "MAXIMUM", "ABS", "LEAKY_RELU", "PRELU", "HARD_SWISH", "TANH", "LOGISTIC", "EXP",
+                     "SQUARED_DIFFERENCE")
+
+
+def protected_tensor_reshaped_into_elementwise(o):
+    """a tensor that has to survive (network output, or read by more than one operator) is read through a RESHAPE-like operator
+    by an elementwise operator"""
+    g = o.get("src_graph") or []
+    outs_net = set(o.get("src_outputs") or [])
+    consumers = {}
+    for kind, ins, outs, faf, pad, stride in g:
+        for t in ins:
+            consumers.setdefault(t, []).append(kind)
+    for kind, ins, outs, faf, pad, stride in g:
+        if kind in MEMORY_ONLY and (ins[0] in outs_net or len(consumers.get(ins[0], [])) > 1):
+            if any(c in ELEMENTWISE_KINDS for c in consumers.get(outs[0], [])):
+                return True
+    return False
+
+
+def wide_stride_avgpool(o):
+    """AVERAGE_POOL_2D with a stride above 3 on more than one channel"""
+    ti = o.get("src_tinfo") or []
+    return any(kind == "AVERAGE_POOL_2D" and stride > 3 and ti[ins[0]][0][-1] > 1
+               for kind, ins, outs, faf, pad, stride in o.get("src_graph") or [])
+
+
 def classify_failure(o, ans):
-    """stable key of the open known finding (see known_findings.txt), or None. Only the structure of the source network
+    """stable key of an open known finding (see known_findings.txt), or None. Only the structure of the source network
     is consulted; the verdict itself is Lean's."""
     g = o.get("src_graph") or []
     if "weights_do_not_fit_the_IFM_depth" in ans:
@@ -491,6 +1063,26 @@ def classify_failure(o, ans):
             for kind, ins, outs, faf, pad, stride in g:
                 if kind == "LEAKY_RELU" and quant and quant[ins[0]][0] != quant[outs[0]][0]:
                     return "int16-lrelu-mul-max-rounds-each-branch"
+    # (keys of the second C01 worker; the wide-stride average pool and the dilation-above-two zero fill are the same defects as
+    # the two keys above, reached when the more specific conditions above do not hold)
+    if (ans.endswith("verdict=fail") or ans.startswith("err:out:")) and wide_stride_avgpool(o):
+        return "wide-stride-avgpool-converted-with-one-input-channel-kernel"
+    if ans.endswith("verdict=fail") and mean_over_unit_axes(o):
+        return "mean-over-unit-axes-drops-requantisation"
+    if ans.endswith("verdict=fail") and protected_tensor_reshaped_into_elementwise(o):
+        return "write-protected-tensor-shares-memory-with-reshape-copy"
+    if ans.endswith("verdict=fail") and transpose_then_activation(o):
+        return "transpose-then-packed-activation-loses-transposition"
+    if ans.endswith("verdict=fail") or ans.startswith("err:out:"):
+        k = weights_findings(o)
+        if k is not None:
+            return k
+    if ans.endswith("verdict=fail") or ans.startswith("err:out:"):
+        k = lowered_then_reshaped(o)
+        if k is not None:
+            return k + "-then-reshape-lowered-with-reshaped-ofm-shape"
+    if ans.endswith("verdict=fail") and ofm_batch_above_one(o):
+        return "ofm-batch-above-one-accepted-on-npu"
     if not (ans.endswith("verdict=fail") or "read_outside_region" in ans) or o.get("dtype") != "int16":
         return None
     consumers = {}
@@ -523,7 +1115,7 @@ def replay(ck, path):
 
 def main():
     ck = Check("C01", "translation_validation")
-    ck.lean_stage(["VelaVerif.Props.C01", "VelaVerif.Props.C01Rewrites"])
+    ck.lean_stage(["VelaVerif.Props.C01", "VelaVerif.Props.C01Rewrites", "VelaVerif.Props.C01Wide"])
     if ck.replay_arg:
         replay(ck, ck.replay_arg)
     import pipeline
@@ -542,8 +1134,12 @@ def main():
                                                               "slice_window", "lut_reshape", "cascade_stale_row", "pad_avgpool_act", "slice_of_slice", "slice_strided_conv", "fc_int16",
                                                               "slice_strided_pool", "pad_concat", "pad_strided_dw", "lrelu16_relu6", "lrelu16_reshape",
                                                               "mulmax_gt1", "mulmax_q0", "mulmax_qm1", "lrelu16_rounding", "pad_hw_and_channel",
-                                                              "sconv_unit_output", "sconv_filter_shift", "dilation3_uint8",
-                                                              "avgpool_wide_stride")]
+                                                              "sconv_unit_output", "sconv_filter_shift", "dilation3_asym",
+                                                              "avgpool_wide_stride",
+                                                              "mean_unit_axes", "concat_batch_axis",
+                                                              "resize_reshape", "mean_reshape", "widepool_reshape",
+                                                              "transpose_relu", "sqdiff_reshape", "dilation3_uint8", "shared_dilation3", "shared_tconv",
+                                                              "prelu_reshape", "transpose_lut_mul", "protected_reshape_inplace")]
     jobs += [(ck.seed, i, PROFILES[i % len(PROFILES)], k_inputs) for i in range(n)]
     ctx = multiprocessing.get_context("fork")
     t0 = time.time()
@@ -612,6 +1208,24 @@ def main():
         if ans.endswith("verdict=fail"):
             ck.violation(f"compiled model differs from the source model: {ans[:400]} "
                          f"(network {o['idx']} {o['profile']} {o['src_ops']} {o['opts']})", rp, key=classify_failure(o, ans))
+        m = re.search(r"exptab seen=(\d+) bad=(\d+) first=(\S+)", ans)
+        if m:
+            ck.count("softmax_exp_tables_compared", int(m.group(1)))
+            if int(m.group(1)) > 0 and o["src_ops"][-1] == "SOFTMAX" and re.search(r"cls=1 maxdiff=0 ", ans):
+                ck.count("softmax_networks_bit_exact")
+            if int(m.group(2)) > 0 and not ans.endswith("verdict=fail"):
+                # Correspondence stream: the table of exponentials the stream installs differs from exp_on_negative_values of
+                # the reference parameters, but the outputs agreed on the K input sets. Failing-input search: more input sets.
+                import c01_lib
+
+                r2 = random.Random(o["idx"] * 7919 + 17)
+                more = c01_lib.inputs_from_specs(r2, [tuple(sp) for sp in o["input_specs"]], 48, first=6)
+                ans2 = common.run_model([c01_lib.with_inputs(line, more)])[0]
+                rp2 = dict(rp, verdict=ans2[:2000], request=c01_lib.with_inputs(line, more), exptab=m.group(0))
+                ck.violation(f"SOFTMAX table of exponentials differs from the reference (exp_on_negative_values of the rescaled input "
+                             f"difference, PreprocessSoftmaxScaling in double): {m.group(0)} (table/entry/reference/stream); "
+                             f"wider input sample: {ans2[:200]} (network {o['idx']} {o['profile']} {o['src_ops']} {o['opts']})",
+                             rp2, found_input=ans2.endswith("verdict=fail"))
     for o, ans in list(zip(owners, answers))[:4]:
         ck.sample({"network": o["desc"], "opts": o["opts"], "features": o.get("features"), "verdict": ans[:300]})
     ck.finish({
